@@ -126,6 +126,8 @@ func drawCfg(t *core.Tape, opt core.Options) RunCfg {
 		c.EvForger = t.Chance(1, 4)
 	}
 	c.Filters = opt.Int("faults", 1) > 0 && t.Chance(1, 2)
+	c.Txs = t.Chance(1, 2)
+	c.TxPct = []int{3, 10, 30}[t.Draw(3)]
 	if opt.Mode == "crash" {
 		c.NVal = []int{1, 4, 4, 2}[t.Draw(4)]
 		c.Stakes = c.Stakes[:0]
@@ -164,6 +166,14 @@ func drawCfg(t *core.Tape, opt core.Options) RunCfg {
 		if c.NoisePct < 15 {
 			c.NoisePct = 15
 		}
+	case "C06", "C09":
+		c.Txs = true
+		if c.TxPct < 10 {
+			c.TxPct = 10
+		}
+		if len(c.ByzStrat) > 0 {
+			c.ByzStrat[0] = "tx-mixer"
+		}
 	case "C19":
 		c.EvForger = true
 		if c.NoisePct < 15 {
@@ -185,8 +195,9 @@ func (engine) Run(t *testing.T, tape *core.Tape, opt core.Options) (res *core.Ru
 	res = core.NewResult()
 	s := &Sim{t: t, tape: tape, res: res, opt: opt, h: core.NewHasher(), ah: core.NewHasher(),
 		until: map[string]time.Duration{}, retries: map[string]int{}, cut: map[[2]int]bool{},
-		blocks: map[string]*knownBlock{}, blocksByH: map[uint64][]*knownBlock{}, forged: map[string]string{}, bogusParts: map[int]int{}, learnedSaved: map[int]int{}}
+		blocks: map[string]*knownBlock{}, blocksByH: map[uint64][]*knownBlock{}, forged: map[string]string{}, bogusParts: map[int]int{}, learnedSaved: map[int]int{}, userNonce: map[int]uint64{}}
 	s.cfg = drawCfg(tape, opt)
+	s.txUser = tape.Draw(4)
 	if opt.Verbose && os.Getenv("VERIF_LOGS") != "" {
 		kit.LogSink = func(lvl log.Lvl, msg string, ctx []interface{}) {
 			fmt.Printf("      LOG[%v] %s %v\n", lvl, msg, ctx)
@@ -325,6 +336,9 @@ func (s *Sim) run() {
 		return
 	}
 	s.phase2()
+	if !s.failedNow() && !s.res.Inconclusive {
+		s.replayOracle()
+	}
 	s.res.SimTimeS = s.now().Seconds()
 	s.res.Steps = s.steps
 	nf := 0
